@@ -232,7 +232,8 @@ Qed.
 Lemma oremove_comm : forall V (l : list (string * V)) a b, oremove a (oremove b l) = oremove b (oremove a l).
 Proof.
   unfold oremove. induction l as [|[k v] l IH]; simpl; intros; auto.
-  destruct (String.eqb k a) eqn:Ea, (String.eqb k b) eqn:Eb; simpl; rewrite ?Ea, ?Eb; simpl; rewrite ?IH; auto.
+  destruct (String.eqb k a) eqn:Ea, (String.eqb k b) eqn:Eb; simpl; rewrite ?Ea, ?Eb; simpl;
+    try (f_equal; apply IH); apply IH.
 Qed.
 Theorem oremove_all_perm : forall V ks ks' (l : list (string * V)), Permutation ks ks' ->
   oremove_all ks l = oremove_all ks' l.
@@ -244,8 +245,8 @@ Theorem first_match_perm_unique : forall A (p : A -> bool) l l', Permutation l l
   first_match p l = first_match p l'.
 Proof.
   unfold first_match. intros A p l l' Hp. induction Hp; simpl; intros Hu; auto.
-  - destruct (p x); auto. apply IHHp. intros; apply Hu; simpl; auto.
-  - destruct (p y) eqn:E1, (p x) eqn:E2; auto. f_equal. apply Hu; simpl; auto.
+  - destruct (p x); auto; try (apply IHHp; intros; apply Hu; simpl; auto).
+  - destruct (p y) eqn:E1, (p x) eqn:E2; auto; try (f_equal; apply Hu; simpl; auto).
   - rewrite IHHp1 by assumption. apply IHHp2.
     intros a b Ha Hb. apply Hu; (eapply Permutation_in; [apply Permutation_sym; exact Hp1|assumption]).
 Qed.
